@@ -25,7 +25,8 @@ inductive EndKind
   | ok          -- 200 with a JWKS document: the key set served at that instant
   | http5xx     -- a status other than 200 (whatever the body is)
   | badJson     -- 200 with a body that is not one well-formed JSON document of the JWKS shape
-  | cancelled   -- the request's context was cancelled before an answer arrived
+  | cancelled   -- the request's context ENDED before an answer arrived: it was cancelled or its deadline passed
+                -- (Go: `context canceled` / `context deadline exceeded`; a deadline is a cancellation by the clock)
   deriving DecidableEq, Repr, Inhabited
 
 /-- What the endpoint answered, as far as the property cares. The harness fills this in with the REAL `encoding/json`
@@ -56,7 +57,7 @@ inductive Outcome
   | payload (bytes : Nat)     -- verified: the returned payload bytes
   | noKey                     -- "unable to validate signature": no / no unique matching key
   | badSig                    -- "signature verification failed"
-  | ctxErr                    -- the call's own context error
+  | ctxErr                    -- the call's own context error (`context.Canceled` or `context.DeadlineExceeded`)
   | fetchErr (k : EndKind)    -- "unable to fetch key …: failed to get keys": the download it waited for failed with `k`
   | panic                     -- the call (or the process) panicked
   | stuck                     -- the call did not return although the scheduler expected it to
@@ -69,9 +70,9 @@ inductive Party
   deriving DecidableEq, Repr, Inhabited
 
 inductive Obs
-  | start (c : Cid) (tok : JWS)           -- call `c` begins (its context is live)
+  | start (c : Cid) (tok : JWS)           -- call `c` begins (its context is live: not cancelled, no deadline that has passed)
   | finish (c : Cid) (o : Outcome)        -- call `c` returns
-  | cancel (c : Cid)                      -- the context of call `c` is cancelled
+  | cancel (c : Cid)                      -- the context of call `c` is cancelled (its `cancel()` is called)
   | rotate (ks : List ServedKey)          -- the endpoint serves `ks` from now on
   | fetchBegin (f : Fid) (owner : Cid)    -- download `f` is sent, on behalf of call `owner`
   | fetchEnd (f : Fid) (a : Option Answer) -- download `f` ends with this answer of the endpoint (none: aborted by its context)
@@ -81,6 +82,8 @@ inductive Obs
   | ask (c : Cid)                         -- call `c`, not answered by the cache, turns to the key set's (shared) download: it is released from the
                                           -- schedule point in front of `keysFromRemote`'s critical section. The refresh that answers it must still be
                                           -- under way at this instant (linearisation point of "triggers a refresh" / "after at most one refresh")
+  | expire (c : Cid)                      -- the DEADLINE of the context of call `c` passes (`context.WithTimeout` / `WithDeadline`): from now on
+                                          -- the call's own context is no longer live, exactly as after `cancel c`
   deriving Repr, Inhabited
 
 /-- functional update of a table indexed by naturals -/
